@@ -601,9 +601,9 @@ static void run_cmd(int ntok, char **tok) {
         int fs = (int)AI(2); shim_add_fault(A(1)[0], fs == -1 ? -1 : (fs == -2 ? -2 : fds[fs & (NSLOT-1)]), (int)AI(3), (long long)AI(4));
     }
     else if(!strcmp(op, "shim_fault_next")) {
-        /* shim_fault_next <r|w|s|t> <fdslot|-2=temp> <errno|-n>: the NEXT call of that kind on that descriptor */
+        /* shim_fault_next <r|w|s|t> <fdslot|-2=temp> <errno|-n> [j]: the NEXT (or j-th next) call of that kind on that descriptor */
         int fs = (int)AI(2); int fd = fs == -2 ? -2 : fds[fs & (NSLOT-1)];
-        shim_add_fault(A(1)[0], fd, shim_calls(A(1)[0], fd) + 1, (long long)AI(3));
+        shim_add_fault(A(1)[0], fd, shim_calls(A(1)[0], fd) + (ntok > 4 ? (int)AI(4) : 1), (long long)AI(3));
     }
     else if(!strcmp(op, "shim_kill")) { int fs = (int)AI(1); shim_set_kill(fs < 0 ? fs : fds[fs & (NSLOT-1)], (int)AI(2), (long long)AI(3)); }
     else if(!strcmp(op, "shim_clear")) { shim_clear(); }
